@@ -262,6 +262,161 @@ Module Judge.
     end.
 End Judge.
 
+(* ================= stream `seq`: call SEQUENCES on ONE CostModel instance =================
+   The cost model is a function of its arguments: every call of a sequence must return what a fresh model returns
+   for the same arguments, whatever was asked before (no memory between calls).  M runs the (pure) model call by
+   call, S judges every call for its own arguments. *)
+Inductive call : Set :=
+| CAccess (pe : Z * Z)                   (* access_cost(prev, next, p, sa) *)
+| CTrav (e : Z)                          (* traversal_cost(e, p, st) *)
+| CEdge (pe : option (Z * Z)) (e : Z)    (* edge_cost(pe, e, p, st) *)
+| CEst.                                  (* cost_estimate(p, st) *)
+
+Definition run_call (N : Num) (cm : cost_model N) (c : case N) (k : call) : res N :=
+  match k with
+  | CAccess pe => access_cost N cm pe (c_p c) (c_sa c)
+  | CTrav e => traversal_cost N cm e (c_p c) (c_st c)
+  | CEdge pe e => edge_cost N cm pe e (c_p c) (c_st c)
+  | CEst => cost_estimate N cm (c_p c) (c_st c)
+  end.
+Definition run_seq (N : Num) (c : case N) (ks : list call) : res (list (res N)) :=
+  do cm <- build N c; Ok (map (run_call N cm c) ks).
+Definition show_seq (r : res (list (res float))) : string :=
+  match r with
+  | Ok l => "new=Ok " ++ show_list (show_res show_float) l
+  | Err c => "new=Err " ++ c
+  | Panic _ => "new=Panic"
+  | OutOfFuel => "new=Hang"
+  end.
+Definition line_mseq (id : Z) (c : case float) (ks : list call) : string := line "M" id (show_seq (run_seq FN c ks)).
+
+Module JudgeSeq.
+  Import CostSpec Judge.
+  Local Open Scope Q_scope.
+  Definition judge_call (c : case Q) (k : call) (r : res float) : bool :=
+    let fs := feats c in let a := eff_a c in
+    let p := c_p c in let sa := c_sa c in let st := c_st c in
+    let okt := covers fs p st in let oka := covers fs p sa in
+    let vt := veh_total a fs p st in let vtm := veh_mag a fs p st in
+    match k with
+    | CAccess pe =>
+        judge1 Positive oka (veh_mag a fs p sa + turn_mag a fs (Some pe) p sa)
+               (veh_total a fs p sa + turn_total a fs (Some pe) p sa) r
+    | CTrav e => judge1 Positive okt (vtm + edge_mag a fs e p st) (vt + edge_total a fs e p st) r
+    | CEdge pe e =>
+        judge1 Positive okt (vtm + edge_mag a fs e p st + turn_mag a fs pe p st)
+               (vt + edge_total a fs e p st + turn_total a fs pe p st) r
+    | CEst => judge1 NonNegative okt vtm vt r
+    end.
+  Fixpoint judge_calls (c : case Q) (i : nat) (ks : list call) (rs : list (res float)) : list string :=
+    match ks, rs with
+    | [], [] => []
+    | k :: ks', r :: rs' =>
+        (if judge_call c k r then [] else ["call" ++ show_nat i]) ++ judge_calls c (S i) ks' rs'
+    | _, _ => ["length"]
+    end.
+  Definition judge_seq (c : case Q) (ks : list call) (r : res (list (res float))) : list string :=
+    match r with
+    | Ok rs => judge_calls c 0 ks rs
+    | Err cls => judge c (Err cls)
+    | _ => ["new"]
+    end.
+End JudgeSeq.
+Definition line_sseq (id : Z) (c : case float) (ks : list call) (r : res (list (res float))) : string :=
+  line "S" id
+    (if case_all finiteb c
+     then match JudgeSeq.judge_seq (case_map F2Q c) ks r with
+          | [] => show_seq r
+          | bad => "REJECT " ++ join "," bad
+          end
+     else "unspecified").
+
+(* ================= stream `builder`: network rates read from CSV files by NetworkCostRateBuilder =================
+   The harness writes the tables of the case to CSV files, builds the REAL builder, and observes on the returned
+   rate: traversal_cost for every probed edge, access_cost for every probed pair, and CostModel::edge_cost of a
+   one-feature model (weight w, raw rate, state change d) for every probed pair.  S: each surcharge is the SUM over
+   all configured tables (Model/CostSpec.v builder_edge_fee / builder_turn_fee), the charge is floored w*d + w*fees. *)
+Record bcase (A : Type) : Type := {
+  b_builder : nbuilder A; b_edges : list Z; b_pairs : list (Z * Z); b_w : A; b_d : A }.
+Arguments b_builder {A} b. Arguments b_edges {A} b. Arguments b_pairs {A} b. Arguments b_w {A} b. Arguments b_d {A} b.
+Arguments Build_bcase {A}.
+Definition bouts (A : Type) : Type := (list A * list A * list (res A))%type.
+
+Definition run_builder (N : Num) (c : bcase N) : res (bouts N) :=
+  do r <- nbuild (b_builder c);
+  let cm := Build_cost_model [Build_feat (b_w c) VRaw r] ASum in
+  Ok (map (n_traversal N r) (b_edges c), map (n_access N r) (b_pairs c),
+      map (fun pe => edge_cost N cm (Some pe) (snd pe) [zero] [b_d c]) (b_pairs c)).
+Definition show_bouts (r : res (bouts float)) : string :=
+  match r with
+  | Ok (t, a, e) => "build=Ok t=" ++ show_list show_float t ++ " a=" ++ show_list show_float a
+                    ++ " ec=" ++ show_list (show_res show_float) e
+  | Err c => "build=Err " ++ c
+  | Panic _ => "build=Panic"
+  | OutOfFuel => "build=Hang"
+  end.
+Definition line_mb (id : Z) (c : bcase float) : string := line "M" id (show_bouts (run_builder FN c)).
+
+Section MapBuilder.
+  Context {A B : Type} (g : A -> B).
+  Fixpoint bmap (b : nbuilder A) : nbuilder B :=
+    match b with
+    | BTraversal rows => BTraversal (option_map (map (fun kv => (fst kv, g (snd kv)))) rows)
+    | BAccess rows => BAccess (option_map (map (fun kv => (fst kv, g (snd kv)))) rows)
+    | BCombined l => BCombined (map bmap l)
+    end.
+End MapBuilder.
+Fixpoint ball {A} (g : A -> bool) (b : nbuilder A) : bool :=
+  match b with
+  | BTraversal (Some rows) => forallb (fun kv => g (snd kv)) rows
+  | BAccess (Some rows) => forallb (fun kv => g (snd kv)) rows
+  | BCombined l => forallb (ball g) l
+  | _ => true
+  end.
+Fixpoint breadable {A} (b : nbuilder A) : bool :=
+  match b with
+  | BTraversal None | BAccess None => false
+  | BCombined l => forallb breadable l
+  | _ => true
+  end.
+
+Module JudgeBuilder.
+  Import CostSpec Judge.
+  Local Open Scope Q_scope.
+  Fixpoint all2 {X Y} (f : X -> Y -> bool) (xs : list X) (ys : list Y) : bool :=
+    match xs, ys with
+    | [], [] => true
+    | x :: xs', y :: ys' => f x y && all2 f xs' ys'
+    | _, _ => false
+    end.
+  Definition judge_b (c : bcase Q) (r : res (bouts float)) : list string :=
+    let b := b_builder c in let ab := bmap Qabs b in
+    match r with
+    | Err cls => if negb (breadable b) && String.eqb cls "BuildError" then [] else ["build"]
+    | Ok (t, a, e) =>
+        if negb (breadable b) then ["build"] else
+        (if all2 (fun k v => finiteb v && near (eps * builder_edge_fee ab k) (F2Q v) (builder_edge_fee b k)) (b_edges c) t
+         then [] else ["t"])
+        ++ (if all2 (fun k v => finiteb v && near (eps * builder_turn_fee ab k) (F2Q v) (builder_turn_fee b k)) (b_pairs c) a
+            then [] else ["a"])
+        ++ (if all2 (fun k v =>
+                       let fee := builder_edge_fee b (snd k) + builder_turn_fee b k in
+                       let feem := builder_edge_fee ab (snd k) + builder_turn_fee ab k in
+                       judge1 Positive true (Qabs (b_w c) * (Qabs (b_d c) + feem)) (b_w c * b_d c + b_w c * fee) v)
+                    (b_pairs c) e
+            then [] else ["ec"])
+    | _ => ["build"]
+    end.
+End JudgeBuilder.
+Definition line_sb (id : Z) (c : bcase float) (r : res (bouts float)) : string :=
+  line "S" id
+    (if ball finiteb (b_builder c) && finiteb (b_w c) && finiteb (b_d c)
+     then match JudgeBuilder.judge_b (Build_bcase (bmap F2Q (b_builder c)) (b_edges c) (b_pairs c) (F2Q (b_w c)) (F2Q (b_d c))) r with
+          | [] => show_bouts r
+          | bad => "REJECT " ++ join "," bad
+          end
+     else "unspecified").
+
 Definition line_s (id : Z) (c : case float) (r : res (outs float)) : string :=
   line "S" id
     (if case_all finiteb c
